@@ -17,13 +17,15 @@ ASSUMPTIONS = [
     'spans come from the generator, never from TexSoup; only the insertion offsets use the tree\'s own split of a body into elements',
     'parent.remove(child) may refuse for a child of an argument group (remove is documented over the node\'s own contents)',
 ]
-PROFILES = ['smalltwin', 'tinytwin', 'smalllists', 'tinytwin', 'smalltwin', 'smalldefs', 'tinytwin', 'smalllists']
+PROFILES = ['smalltwin', 'tinytwin', 'smalllists', 'tinytwin', 'smalltwin', 'smalldefs', 'tinytwin', 'wide']
 FRAGMENT = '\\textbf{N}\\begin{q}z\\end{q}$m$\\w'
 NEWS = [
     [('s', 'NEW')], [('s', ' new text ')], [('n', 0)], [('n', 1)], [('s', 'A'), ('n', 2)], [('n', 0), ('s', ' and '), ('n', 1)],
     [('n', 3), ('s', ' ')], [('s', '')], [('s', 'x'), ('s', 'y'), ('s', 'z')],
     [('s', '('), ('self', 0), ('s', ')')], [('self', 0), ('s', '!')],
     [('soup', '\\p\\q'), ('s', 'Z')], [('s', 'A'), ('soup', '\\p{1} and $m$'), ('n', 0)], [('soup', ''), ('s', 'E')],
+    # many items in one call
+    [('s', 'w%d ' % i) for i in range(20)], [('n', i % 4) if i % 3 else ('s', '<%d>' % i) for i in range(33)],
 ]
 
 
@@ -194,7 +196,7 @@ def containers_of(nodes, src, soup):
 
 def check_doc(nodes, src, case, res):
     labels = set()
-    if len(src) > 500:
+    if len(src) > (900 if case.get('profile') == 'wide' else 500):
         if res is not None:
             res.excluded['document-longer-than-500-characters(cost)'] += 1
         return labels
